@@ -3,6 +3,8 @@
   Theorems over the regenerated handler tables and the `callMethod` model.
 -/
 import GormModel.Model.Hooks
+import GormModel.Model.HookSchema
+import GormModel.Gen.HookFacts
 import GormModel.Gen.Pipelines
 import GormModel.Gen.Misc
 import GormModel.Gen.Finishers
@@ -222,5 +224,148 @@ example : compoundEvents pipelines handlers (fun _ => true) [("create", true)] 3
      .hook "AfterCreate" 0, .hook "AfterSave" 0, .hook "AfterCreate" 1, .hook "AfterSave" 1,
      .hook "BeforeSave" 2, .hook "BeforeCreate" 2, .stmt, .hook "AfterCreate" 2, .hook "AfterSave" 2] := by
   decide
+
+/-! ## Hook detection by method set (schema.Parse) -/
+
+def nineHooks : List String :=
+  ["BeforeCreate", "AfterCreate", "BeforeUpdate", "AfterUpdate", "BeforeSave", "AfterSave", "BeforeDelete", "AfterDelete", "AfterFind"]
+
+/-- the regenerated detection tables of schema/schema.go: the nine constants carry their own names, the loop visits
+    all nine, every arm of `callBackToMethodValue` looks up ITS OWN constant, exactly the signature
+    `func(*gorm.DB) error` is accepted, the flag set is the field named by the loop variable, the method set
+    inspected is the pointer's (`reflect.New(modelType)`), and Schema has exactly these nine bool hook fields -/
+theorem C13_detection_table :
+    hookTypesLoop.map (fun l => lookupS hookTypeConsts l) = nineHooks.map some ∧
+    (∀ l ∈ hookTypesLoop, lookupS hookMethodArms l = some l) ∧
+    hookSigCases = [("func(*gorm.DB) error", "true"), ("default", "false")] ∧
+    hookSigSwitchTag = "methodValue.Type().String()" ∧
+    hookFlagSetExpr = "reflect.Indirect(reflect.ValueOf(schema)).FieldByName(string(cbName)).SetBool(true)" ∧
+    hookLookupCall = "callBackToMethodValue(modelValue, cbName)" ∧ hookModelValueDef = "reflect.New(modelType)" ∧
+    (∀ h ∈ nineHooks, h ∈ schemaHookFields) ∧ schemaHookFields.length = 9 := by
+  decide
+
+/-- MAIN (detection): for EVERY method set, schema.Parse sets the flag of hook h exactly when the (pointer) method
+    set has a method named h of type `func(*gorm.DB) error` -- each of the nine flags depends on its own method only -/
+theorem sigAccepted_gen (sig : String) : sigAccepted hookSigCases sig = (sig == "func(*gorm.DB) error") := by
+  unfold sigAccepted lookupS hookSigCases
+  by_cases h : sig = "func(*gorm.DB) error"
+  · subst h; decide
+  · by_cases h2 : sig = "default"
+    · subst h2; decide
+    · have h' : ("func(*gorm.DB) error" == sig) = false := beq_eq_false_iff_ne.mpr (fun hh => h hh.symm)
+      have h2' : ("default" == sig) = false := beq_eq_false_iff_ne.mpr (fun hh => h2 hh.symm)
+      simp [List.find?, h', h2', h]
+
+theorem C13_flags_exact (ms : List Meth) :
+    genFlags ms = nineHooks.map fun h => (h, hasHook ms h) := by
+  simp [genFlags, schemaFlags, hookFlag, sigAccepted_gen, hasHook, nineHooks,
+    hookTypeConsts, hookMethodArms, hookTypesLoop, lookupS]
+
+/-- every interface of callbacks/interfaces.go has exactly one method, named like the interface, of hook signature -/
+theorem C13_interfaces_table :
+    hookInterfaces = nineHooks.map fun h => (h ++ "Interface", [(h, "(*gorm.DB) error")]) := by
+  decide
+
+theorem C13_implements_exact (ms : List Meth) :
+    ∀ h ∈ nineHooks, implementsI hookInterfaces ms (h ++ "Interface") = hasHook ms h := by
+  intro h hh
+  simp [nineHooks] at hh
+  rcases hh with rfl | rfl | rfl | rfl | rfl | rfl | rfl | rfl | rfl <;>
+    simp [implementsI, hookInterfaces, hasHook]
+
+/-- every call site `i.H(tx)`: the type assertion is to H's interface, and -- whatever the nine flags and the
+    type assertions evaluate to -- it runs iff H's OWN flag is set and the value implements H's interface -/
+theorem C13_site_guards (flag impl : String → Bool) :
+    ∀ s ∈ hookSites, s.iface = s.hook ++ "Interface" ∧ s.hook ∈ nineHooks ∧
+      siteFiresWith flag impl s = (flag s.hook && impl s.iface) := by
+  intro s hs
+  simp [hookSites] at hs
+  rcases hs with rfl | rfl | rfl | rfl | rfl | rfl | rfl | rfl | rfl | rfl | rfl <;>
+    (refine ⟨by decide, by decide, ?_⟩
+     simp [siteFiresWith, evalH, hooksOnEnv]
+     try (cases flag _ <;> simp))
+
+/-- MAIN (exactly the model's hooks): in the current tree, for EVERY method set, a hook call site fires for a record
+    iff the model has that hook -/
+theorem C13_fires_iff_method (ms : List Meth) :
+    ∀ s ∈ hookSites, siteFires ms s = hasHook ms s.hook := by
+  intro s hs
+  obtain ⟨hi, hn, hf⟩ := C13_site_guards (flagOf (genFlags ms)) (implementsI hookInterfaces ms) s hs
+  have hflag : flagOf (genFlags ms) s.hook = hasHook ms s.hook := by
+    rw [C13_flags_exact]
+    simp [nineHooks] at hn
+    rcases hn with h | h | h | h | h | h | h | h | h <;> simp [h, flagOf, nineHooks]
+  have himpl : implementsI hookInterfaces ms s.iface = hasHook ms s.hook := by
+    rw [hi]; exact C13_implements_exact ms s.hook hn
+  unfold siteFires
+  rw [hf, hflag, himpl, Bool.and_self]
+
+/-- the handlers' hook lists (Gen.handlers) and the call sites (Gen.hookSites) describe the same calls in the same order -/
+theorem C13_sites_match_handlers :
+    ∀ h ∈ handlers, h.callsMethod = true →
+      (hookSites.filter fun s => s.handler == h.name).map (·.hook) = h.hooks := by
+  decide
+
+/-- consequence: the event list for a method set is the event list of `opEvents` with `has` = "the model has the hook" -/
+theorem C13_events_by_method_set (ms : List Meth) (handler : String) (hooks : List String) (n i : Nat)
+    (hsub : ∀ h ∈ hooks, firesIn ms handler h = hasHook ms h) :
+    hookEventsIn ms handler hooks n i = hookEventsOf hooks (hasHook ms) n i := by
+  have hfilter : hooks.filter (firesIn ms handler) = hooks.filter (hasHook ms) :=
+    List.filter_congr (fun h hh => hsub h hh)
+  induction n generalizing i with
+  | zero => simp [hookEventsIn, hookEventsOf]
+  | succ n ih => simp [hookEventsIn, hookEventsOf, ih, hfilter]
+
+example : firesIn [⟨"AfterDelete", "func(*gorm.DB) error"⟩] "AfterDelete" "AfterDelete" = true := by decide
+example : firesIn [⟨"BeforeDelete", "func(*gorm.DB) error"⟩] "AfterDelete" "AfterDelete" = false := by decide
+example : firesIn [⟨"AfterSave", "func() error"⟩] "AfterCreate" "AfterSave" = false := by decide
+
+/-! ## Hook error values -/
+
+/-- MAIN (any error rolls back): when the default transaction was started, CommitOrRollbackTransaction of the current
+    tree rolls back for EVERY non-nil error value -- sentinel (gorm.ErrRecordNotFound, sql.ErrTxDone, context.Canceled,
+    io.EOF …), wrapped, joined, chained by AddError, or with its own `Is` method -- and commits only without error -/
+theorem C13_any_error_rolls_back (atom : String → Bool) (e : ErrV)
+    (hskip : atom "db.Config.SkipDefaultTransaction" = false) (hstarted : atom "ok" = true) :
+    txDecision atom (some e) = ["db.Rollback"] ∧ txDecision atom none = ["db.Commit"] := by
+  simp [txDecision, callsUnder, commitOrRollbackActs, evalH, errEnv, hskip, hstarted]
+
+/-- DB.AddError keeps any error: with `db.Error = cur` it stores e itself (cur = nil) or `fmt.Errorf("%v; %w", cur, e)`,
+    which `errors.Is`-matches exactly what e matches and still carries e -/
+theorem C13_addError_keeps (atom : String → Bool) (cur : Option ErrV) (e : ErrV)
+    (htr : atom "db.Config.TranslateError" = false) :
+    ∃ r, hookAddError atom cur e = some r ∧ r.carries e = true ∧ (∀ s, r.is s = e.is s) ∧ (cur = none → r = e) := by
+  cases cur with
+  | none =>
+    refine ⟨e, ?_, ?_, fun _ => rfl, fun _ => rfl⟩
+    · simp [hookAddError, hookAddErrorWith, callsUnder, addErrorWrites, evalH, errEnv, htr]
+    · cases e <;> simp [ErrV.carries]
+  | some c =>
+    refine ⟨.chain c e, ?_, ?_, fun _ => by simp [ErrV.is], fun h => by simp at h⟩
+    · simp [hookAddError, hookAddErrorWith, callsUnder, addErrorWrites, evalH, errEnv, htr]
+    · cases e <;> simp [ErrV.carries]
+
+/-- MAIN (hook error ⇒ rollback): a hook returns e (`db.AddError(i.H(tx))`, C13_hooks_only_via_callMethod) with any
+    earlier error state: afterwards db.Error is non-nil, so every later hook callback is disabled (`db.Error == nil`
+    guard, C13_hook_guards) and the default transaction is rolled back, whatever e is -/
+theorem C13_hook_error_rolls_back (atom : String → Bool) (cur : Option ErrV) (e : ErrV)
+    (htr : atom "db.Config.TranslateError" = false)
+    (hskip : atom "db.Config.SkipDefaultTransaction" = false) (hstarted : atom "ok" = true) :
+    ∃ r, hookAddError atom cur e = some r ∧ txDecision atom (hookAddError atom cur e) = ["db.Rollback"] := by
+  obtain ⟨r, hr, _⟩ := C13_addError_keeps atom cur e htr
+  exact ⟨r, hr, by rw [hr]; exact (C13_any_error_rolls_back atom r hskip hstarted).1⟩
+
+/-- nothing on the way from a hook to the end of the transaction looks at WHICH error it has, except the two known
+    places that concern other errors (Begin's ErrInvalidTransaction, Parse's ErrUnsupportedDataType) -/
+theorem C13_no_error_value_tests :
+    hookPathErrTests =
+      [("callbacks.go", "processor.Execute", "errors.Is(err, schema.ErrUnsupportedDataType)"),
+       ("callbacks.go", "processor.Execute", "errors.Is(err, schema.ErrUnsupportedDataType)"),
+       ("callbacks/transaction.go", "BeginTransaction", "tx.Error == gorm.ErrInvalidTransaction")] ∧
+    addErrorReturns.map (·.call) = ["return db.Error"] := by
+  decide
+
+example : (ErrV.wrap (.sentinel "gorm.ErrRecordNotFound")).is "gorm.ErrRecordNotFound" = true := by decide
+example : txDecision (fun a => a == "ok") (some (.join (.plain 1) (.sentinel "gorm.ErrRecordNotFound"))) = ["db.Rollback"] := by decide
 
 end Gorm
